@@ -1,5 +1,5 @@
 #!/venv/bin/python
-"""tools/seed_eval.py <breaker_out_dir> <Cxx> [extra check ids...]
+"""tools/seed_eval.py /tmp/brk_cNN_out [check ids to run, default CNN]
 
 Confirms each change_k.diff produced by an independent breaker agent (who saw only the property text) in a scratch
 worktree of /repo (never in /repo): the repo's tests stay at baseline, demo_k.py fails with the change and passes
@@ -47,8 +47,11 @@ def run_demo(demo, src):
 
 
 def main():
-    out, pid = sys.argv[1], sys.argv[2].upper()
-    checks = [pid] + [c.upper() for c in sys.argv[3:]]
+    out = sys.argv[1]
+    m = re.search(r"brk_(c\d+)_out", out)
+    assert m, "directory must be named brk_cNN_out (the property the breaker was given)"
+    pid = m.group(1).upper()                       # owner = the property the breaker agent was given
+    checks = [c.upper() for c in sys.argv[2:]] or [pid]
     for diff in sorted(glob.glob(os.path.join(out, "change_*.diff"))):
         k = re.search(r"change_(\d+)\.diff", diff).group(1)
         demo = os.path.join(out, "demo_%s.py" % k)
